@@ -931,6 +931,34 @@ func (f *Frame) enterLoop(li *loopInfo, b *ssa.BasicBlock, entry *State, reach s
 			}
 		}
 	}
+	// opt-in termination sweep (`sweep[Cxx] variant`): a loop of the function under contract that is not a `range`
+	// loop must carry a decreases clause; without one its termination is undecided and reported
+	if f.isRoot && f.contract != nil && (li.spec == nil || li.spec.Decreases == nil) {
+		isRange := false
+		for _, phi := range li.phis {
+			if phi.Comment == "rangeindex" {
+				isRange = true
+			}
+		}
+		for _, in := range b.Instrs {
+			if _, ok := in.(*ssa.Next); ok {
+				isRange = true
+			}
+		}
+		var tags []string
+		for t, ks := range f.contract.SweepKinds {
+			if ks["variant"] {
+				tags = append(tags, t)
+			}
+		}
+		sort.Strings(tags)
+		if !isRange && len(tags) > 0 {
+			was := c.finalObl
+			c.finalObl = true // report only: never assume 'false'
+			c.oblige("variant", tags, reach, "false", f.where(b.Instrs[0]), fmt.Sprintf("loop %d is not a range loop and has no decreases clause: termination undecided", li.ordinal))
+			c.finalObl = was
+		}
+	}
 	li.headSt = hs.clone()
 	li.reach = reach
 	if li.spec != nil {
